@@ -581,7 +581,7 @@ func s13() scenario {
 		in := &inst{outs: make([]string, 3)}
 		in.threads = []func(){
 			func() { in.outs[0] = hx(sm9.Decrypt(u, s4UID, s13CT, nil)) + "/" + hex.EncodeToString(u.Bytes()) },
-			func() { in.outs[1] = hx(sm9.UnwrapKey(u, s4UID, s13Wrapped, 16)) },
+			func() { in.outs[1] = hx(u.UnwrapKey(s4UID, s13Wrapped, 16)) },
 			func() {
 				ke := u.NewKeyExchange(s4UID, []byte("Bob"), 16, false)
 				ra, err := ke.InitKeyExchange(&engine.DetReader{Lane: 92}, 3)
@@ -624,6 +624,29 @@ func s14() scenario {
 	}}
 }
 
+// ---- S15 (light): two first-use unwraps on one generated SM9 encryption user key — one pairing per thread, so that the
+// pure-Go race build can afford interleavings at the structural (entry/exit) points of the arithmetic core
+
+func s15() scenario {
+	return scenario{name: "S15-sm9-generated-key-two-unwraps", setup: func() *inst {
+		s13().setup()
+		m, err := sm9.UnmarshalEncryptMasterPrivateKeyASN1(s5MasterDER)
+		if err != nil {
+			panic(err)
+		}
+		u, err := m.GenerateUserKey(s4UID, 3)
+		if err != nil {
+			panic(err)
+		}
+		in := &inst{outs: make([]string, 2)}
+		in.threads = []func(){
+			func() { in.outs[0] = hx(u.UnwrapKey(s4UID, s13Wrapped, 16)) },
+			func() { in.outs[1] = hx(u.UnwrapKey(s4UID, s13Wrapped, 16)) + "/" + hex.EncodeToString(u.Bytes()) },
+		}
+		return in
+	}}
+}
+
 func allScenarios() []scenario {
-	return []scenario{s1(), s2(), s3(), s4(), s5(), s6a(), s6b(), s7(), s8(), s9(), s10(), s11(), s12(), s13(), s14()}
+	return []scenario{s1(), s2(), s3(), s4(), s5(), s6a(), s6b(), s7(), s8(), s9(), s10(), s11(), s12(), s13(), s14(), s15()}
 }
